@@ -178,6 +178,18 @@ def _rand_tuple(rng, shape, allow_empty=True, ints=True):
             t.append(_rand_int(rng, n))
         else:
             t.append(_rand_slice(rng, n, allow_empty))
+    if ints and len(shape) >= 2 and rng.random() < 0.2:
+        # one axis selected by an integer array or list (distinct entries), the others by slices / ints / Ellipsis: numpy returns a
+        # copy for such an index, whatever its position
+        a = int(rng.integers(0, len(t)))
+        n = shape[a]
+        if n >= 1:
+            sel = rng.permutation(n)[: int(rng.integers(1, n + 1))]
+            sel = np.where(rng.random(sel.size) < 0.25, sel - n, sel)
+            t[a] = [int(v) for v in sel] if rng.random() < 0.4 else sel.astype(np.intp)
+            if a == len(t) - 1 and len(t) == len(shape) and rng.random() < 0.3:
+                t = [Ellipsis, t[a]]
+            return tuple(t)
     if ints and len(shape) >= 2 and rng.random() < 0.15:
         # Ellipsis form: index the trailing axes
         m = int(rng.integers(1, len(shape)))
@@ -570,6 +582,14 @@ class _World:
         ka = [None, True, False][int(self.rng.integers(0, 3))]
         op = self._opname("reset", idx)
         self.log(f"{op} s{k} {idx!r} keep_alloc={ka}")
+        sens_ = self.sigs[k].sensitivity
+        if self.msens[k] is not None and isinstance(sens_, np.ndarray) and sens_.dtype.kind in "fc" and P.size and self.rng.random() < 0.3:
+            # a non-finite entry inside the slice (a derivative evaluated at a singular point): reset means zero, not 0*inf
+            pos_ = int(P.reshape(-1)[int(self.rng.integers(0, P.size))])
+            bad_ = [np.inf, -np.inf, np.nan][int(self.rng.integers(0, 3))]
+            sens_.flat[pos_] = bad_
+            self.msens[k][pos_] = bad_
+            self.ctx.count("slice_resets_over_nonfinite_entries")
         tgt.reset() if ka is None else tgt.reset(keep_alloc=ka)
         if self.msens[k] is not None:
             self.msens[k][P.reshape(-1)] = 0
